@@ -269,35 +269,107 @@ theorem layoutOk_of_distinct (ts : List Triple) (hd : KeysDistinct ts) : LayoutO
       | none => rw [h4] at h2; cases h2
       | some s => simp
 
-/-- **collect_disjoint**: for every list of programs (the EBPF object and its subprograms) with
-arbitrary class hierarchies, if no `(program, name)` is collected twice, the variables of map `m`
-occupy pairwise disjoint ranges inside the map value and the map size is a multiple of 8 -/
-theorem collect_disjoint (m : Nat) (progs : List Prog)
-    (h : ((triples m progs).map Triple.key).Nodup) : LayoutOk (triples m progs) :=
-  layoutOk_of_distinct _ ((keysDistinct_iff _).1 h)
+/-! ### the collected keys are distinct: one `unique` set per instance, every instance once -/
+
+theorem classTriplesGo_spec (m pid : Nat) (ds : Cls) (seen : List Nat) :
+    (∀ t ∈ classTriplesGo m pid ds seen, t.prog = pid ∧ t.name ∉ seen) ∧
+    (classTriplesGo m pid ds seen).Pairwise (fun a b => a.name ≠ b.name) := by
+  induction ds generalizing seen with
+  | nil => simp [classTriplesGo]
+  | cons d ds ih =>
+    unfold classTriplesGo
+    split
+    next hc =>
+      obtain ⟨h1, h2⟩ := ih (d.name :: seen)
+      have hs : d.name ∉ seen := by simpa using hc.2
+      refine ⟨?_, ?_⟩
+      · intro t ht
+        rcases List.mem_cons.1 ht with rfl | ht
+        · exact ⟨rfl, hs⟩
+        · have := h1 t ht
+          exact ⟨this.1, fun h => this.2 (List.mem_cons_of_mem _ h)⟩
+      · rw [List.pairwise_cons]
+        exact ⟨fun t ht e => (h1 t ht).2 (by rw [← e]; exact List.mem_cons_self), h2⟩
+    next => exact ih seen
+
+theorem dedupGo_spec (ps : List Prog) (seen : List Nat) :
+    (∀ p ∈ dedupGo ps seen, p.id ∉ seen) ∧ (dedupGo ps seen).Pairwise (fun a b => a.id ≠ b.id) := by
+  induction ps generalizing seen with
+  | nil => simp [dedupGo]
+  | cons p ps ih =>
+    unfold dedupGo
+    split
+    next => exact ih seen
+    next hc =>
+      obtain ⟨h1, h2⟩ := ih (p.id :: seen)
+      have hs : p.id ∉ seen := by simpa using hc
+      refine ⟨?_, ?_⟩
+      · intro q hq
+        rcases List.mem_cons.1 hq with rfl | hq
+        · exact hs
+        · exact fun h => (h1 q hq) (List.mem_cons_of_mem _ h)
+      · rw [List.pairwise_cons]
+        exact ⟨fun q hq e => (h1 q hq) (by rw [← e]; exact List.mem_cons_self), h2⟩
+
+theorem keysDistinct_flatMap (m : Nat) (ps : List Prog) (h : ps.Pairwise (fun a b => a.id ≠ b.id)) :
+    KeysDistinct (ps.flatMap (progTriples m)) := by
+  induction ps with
+  | nil => simp [KeysDistinct]
+  | cons p ps ih =>
+    rw [List.pairwise_cons] at h
+    unfold KeysDistinct
+    rw [List.flatMap_cons, List.pairwise_append]
+    refine ⟨?_, ih h.2, ?_⟩
+    · have hs := classTriplesGo_spec m p.id p.mro.flatten []
+      refine hs.2.imp_of_mem ?_
+      intro a b ha hb hn e
+      exact hn (congrArg Prod.snd e)
+    · intro a ha b hb e
+      obtain ⟨q, hq, hbq⟩ := List.mem_flatMap.1 hb
+      have h1 := (classTriplesGo_spec m p.id p.mro.flatten []).1 a ha
+      have h2 := (classTriplesGo_spec m q.id q.mro.flatten []).1 b hbq
+      have : a.prog = b.prog := congrArg Prod.fst e
+      exact h.1 q hq (by rw [← h1.1, ← h2.1, this])
+
+/-- no `(program, name)` is collected twice, whatever the class hierarchies and the subprogram list -/
+theorem keysDistinct_triples (m : Nat) (progs : List Prog) : KeysDistinct (triples m progs) :=
+  keysDistinct_flatMap m _ (dedupGo_spec progs []).2
+
+/-- **collect_disjoint_full**: for every list of programs (the EBPF object and its subprograms, possibly
+listed twice) with arbitrary class hierarchies, including overriding redeclarations, the variables of
+map `m` occupy pairwise disjoint ranges inside the map value, every collected variable has a range, and
+the map size is a multiple of 8 -/
+def collect_disjoint_full : Prop := ∀ (m : Nat) (progs : List Prog), LayoutOk (triples m progs)
+
+theorem collect_disjoint_full_proved : collect_disjoint_full :=
+  fun m progs => layoutOk_of_distinct _ (keysDistinct_triples m progs)
+
+theorem collect_disjoint (m : Nat) (progs : List Prog) : LayoutOk (triples m progs) :=
+  collect_disjoint_full_proved m progs
 
 theorem collect_total_mod (ts : List Triple) : total ts % Consts.arraymap_align = 0 := roundUp_mod _ _
 
-/-- the full-strength statement: no hypothesis on overriding declarations -/
-def collect_disjoint_full : Prop := ∀ (m : Nat) (progs : List Prog), LayoutOk (triples m progs)
-
-/-- the probed witness: a subprogram class `SB(SA)`, `SA` declares `a:'B', b:'B'`, `SB` redeclares
-`a:'Q'`; the main program declares `z:'B'` (names a=0, b=1, z=2; program ids 0 and 1) -/
+/-- the probed witness of the old defect: a subprogram class `SB(SA)`, `SA` declares `a:'B', b:'B'`, `SB`
+redeclares `a:'Q'`; the main program declares `z:'B'` (names a=0, b=1, z=2; program ids 0 and 1) -/
 def overrideWitness : List Prog :=
   [⟨0, [[⟨2, 0, .arr false 1 .B⟩]]⟩,
    ⟨1, [[⟨0, 0, .arr false 1 .Q⟩], [⟨0, 0, .arr false 1 .B⟩, ⟨1, 0, .arr false 1 .B⟩]]⟩]
 
-example : positionOf (triples 0 overrideWitness) (1, 0) = some 9 := by decide
-example : positionOf (triples 0 overrideWitness) (1, 1) = some 10 := by decide
-example : accessSizeOf (triples 0 overrideWitness) (1, 0) = some 8 := by decide
+example : rangeOf (triples 0 overrideWitness) (1, 0) = some (0, 8) := by decide
+example : rangeOf (triples 0 overrideWitness) (1, 1) = some (9, 1) := by decide
 example : total (triples 0 overrideWitness) = 16 := by decide
-example : layoutOkB (triples 0 overrideWitness) = false := by decide
+example : layoutOkB (triples 0 overrideWitness) = true := by decide
 
-/-- **refuted**: `a` (8 bytes at 9) overlaps `b` (at 10) and runs past the 16-byte map value -/
-theorem collect_disjoint_full_refuted : ¬ collect_disjoint_full := by
+/-! #### the code before the repair (`unique` reset for every class, instances not de-duplicated) -/
+
+def triplesOld (m : Nat) (progs : List Prog) : List Triple :=
+  progs.flatMap fun p => p.mro.flatMap fun cls => classTriplesGo m p.id cls []
+
+/-- on the witness the old collection put `a` (8 bytes) at 9 in a 16-byte map, over `b` at 10 -/
+theorem collect_disjoint_old_refuted : ¬ ∀ (m : Nat) (progs : List Prog), LayoutOk (triplesOld m progs) := by
   intro h
   have h2 := (h 0 overrideWitness).2.1 (1, 0) 9 8 (by decide)
-  have : total (triples 0 overrideWitness) = 16 := by decide
+  have : total (triplesOld 0 overrideWitness) = 16 := by decide
   omega
 
 /-! ### alignment -/
@@ -341,6 +413,12 @@ theorem collect_sorted_aligned (ts : List Triple) (hd : KeysDistinct ts) (k : Ke
   obtain ⟨t, m, _, z⟩ := range_slot ts hd k p s h
   have := slot_aligned ts t p m (by rw [z]; exact hdiv)
   rwa [z] at this
+
+/-- full strength over programs: no hypothesis on the class hierarchies -/
+theorem collect_aligned_full (m : Nat) (progs : List Prog) (k : Key) (p s : Nat)
+    (h : rangeOf (triples m progs) k = some (p, s))
+    (hdiv : ∀ u ∈ triples m progs, s ≤ u.size → s ∣ u.size) : s ∣ p :=
+  collect_sorted_aligned _ (keysDistinct_triples m progs) k p s h hdiv
 
 /-- the case XADD needs: all sizes are powers of two up to 8 (single-element formats and `x`) -/
 theorem collect_aligned_pow2 (ts : List Triple) (hd : KeysDistinct ts) (k : Key) (p s : Nat)
@@ -604,17 +682,40 @@ theorem prog_load_eq_unpack (fmt : Fmt) (big : Bool) (c : Ch) (hs : fmt.single =
 
 /-! ### which maps `EBPF.__init__` initialises -/
 
-/-- full strength: a map declared anywhere in the program class's MRO is initialised -/
-def ebpf_init_full : Prop := ∀ (mro : List (List MapAttr)) (a : MapAttr), a ∈ mro.flatten → a ∈ ebpfDiscover mro
+/-- the MRO walk finds, for every attribute name, the first map of that name -/
+theorem simDiscoverGo_first (l : List MapAttr) (seen : List Nat) (n : Nat) (a : MapAttr)
+    (hf : l.find? (·.attr = n) = some a) (hs : n ∉ seen) : a ∈ simDiscoverGo l seen := by
+  induction l generalizing seen with
+  | nil => simp at hf
+  | cons b bs ih =>
+    by_cases hb : b.attr = n
+    · have : a = b := by simpa [List.find?, hb] using hf.symm
+      subst this
+      have hc : a.attr ∉ seen := by rw [hb]; exact hs
+      simp [simDiscoverGo, hc]
+    · have hf' : bs.find? (·.attr = n) = some a := by simpa [List.find?, hb] using hf
+      unfold simDiscoverGo
+      split
+      · exact ih seen hf' hs
+      · apply List.mem_cons_of_mem
+        apply ih _ hf'
+        simp only [List.mem_cons, not_or]
+        exact ⟨fun e => hb e.symm, hs⟩
 
-/-- what holds: maps in the leaf class's own `__dict__` -/
-theorem ebpf_init_partial (own : List MapAttr) (bases : List (List MapAttr)) (a : MapAttr) (h : a ∈ own) :
-    a ∈ ebpfDiscover (own :: bases) := by simpa [ebpfDiscover] using h
+/-- full strength: the map an attribute name resolves to (first in the MRO, leaf class or any base) is initialised -/
+def ebpf_init_full : Prop := ∀ (mro : List (List MapAttr)) (n : Nat) (a : MapAttr),
+  mro.flatten.find? (·.attr = n) = some a → a ∈ ebpfDiscover mro
 
-/-- **refuted**: the map is declared in a base class, the leaf class only adds variables -/
-theorem ebpf_init_full_refuted : ¬ ebpf_init_full := by
+theorem ebpf_init_full_proved : ebpf_init_full :=
+  fun mro n a hf => simDiscoverGo_first _ [] n a hf (by simp)
+
+/-- before the repair only `self.__class__.__dict__` was looked at: a map of a base class was never initialised -/
+def ebpfDiscoverOld (mro : List (List MapAttr)) : List MapAttr := mro.headD []
+
+theorem ebpf_init_old_refuted : ¬ ∀ (mro : List (List MapAttr)) (n : Nat) (a : MapAttr),
+    mro.flatten.find? (·.attr = n) = some a → a ∈ ebpfDiscoverOld mro := by
   intro h
-  have := h [[], [⟨0, 0⟩]] ⟨0, 0⟩ (by decide)
+  have := h [[], [⟨0, 0⟩]] 0 ⟨0, 0⟩ (by decide)
   revert this; decide
 
 /-- a map that is not initialised has no bytes: every access is a `KeyError` -/
@@ -638,7 +739,8 @@ example : total (triples 0 sample) = 544 := by decide
 example : rangeOf (triples 0 sample) (0, 0) = some (536, 3) := by decide
 example : rangeOf (triples 0 sample) (2, 3) = some (528, 8) := by decide
 example : layoutOkB (triples 0 sample) = true := by decide
-example : ¬ ((triples 0 overrideWitness).map Triple.key).Nodup := by decide
+example : ¬ ((triplesOld 0 overrideWitness).map Triple.key).Nodup := by decide
+example : ((triples 0 overrideWitness).map Triple.key).Nodup := by decide
 example : pack (.arr true 1 .H) [0x1234] = some [0x12, 0x34] := by decide
 example : pack (.arr false 3 .B) [1, 2, 3] = some [1, 2, 3] := by decide
 example : pack .fixed [-150000] = some [0x10, 0xb6, 0xfd, 0xff, 0xff, 0xff, 0xff, 0xff] := by decide
